@@ -9,7 +9,7 @@ LEVEL = "model_checking"
 GOOD = {"UnlockAt": "persisted", "RefRelease": "persisted", "SeqAtomic": True, "DryRunAllocates": False,
         "DryRunPublishes": False, "RevertEventSwapped": False, "MetaSourceLocked": True,
         "AckWaitsPersist": True, "IkSpan": "run", "RevertGuard": True, "MetaLogsCarryIk": True,
-        "CancelAbortsWait": False}
+        "CancelAbortsWait": False, "ReplayFromRequest": False}
 
 SPEC_INVS = ("TypeOK LocksConsistent QuiescentClean C02_SerialFunds C05_IdsGapFree C05_TxIdsSequential C06_AckPersisted "
              "C06_RejectedLeavesNothing C06_OneEntryPerRequest C07_IkOnce C10_RevertOnce C11_RefOnce C14_DryRun "
@@ -28,7 +28,7 @@ PROPS = {
                 negatives=[("AckWaitsPersist", False, "PalRestart", 1), ("CancelAbortsWait", True, "PalRestart", 0)],
                 invs=["C06_AckPersisted", "C06_RejectedLeavesNothing", "C06_OneEntryPerRequest"]),
     "C07": dict(palettes=[("PalIk", 1)],
-                negatives=[("IkSpan", "exec", "PalIk", 0), ("MetaLogsCarryIk", False, "PalIk", 0)],
+                negatives=[("IkSpan", "exec", "PalIk", 0), ("MetaLogsCarryIk", False, "PalIk", 0), ("ReplayFromRequest", True, "PalIk", 0)],
                 invs=["C07_IkOnce", "C06_AckPersisted"]),
     "C10": dict(palettes=[("PalRevert", 0)],
                 negatives=[("RevertGuard", False, "PalRevert", 0)],
@@ -43,7 +43,7 @@ PROPS = {
                 negatives=[("DryRunAllocates", True, "PalDry", 0), ("DryRunPublishes", True, "PalDry", 0)],
                 invs=["C14_DryRun", "C14_NoIdConsumed", "C06_AckPersisted"]),
     "C16": dict(palettes=[("PalKinds", 0), ("PalRevert", 0), ("PalDry", 0), ("PalDry2", 0), ("PalIk", 1)],
-                negatives=[("RevertEventSwapped", True, "PalRevert", 0), ("DryRunPublishes", True, "PalDry", 0),
+                negatives=[("RevertEventSwapped", True, "PalRevert", 0), ("DryRunPublishes", True, "PalDry", 0), ("ReplayFromRequest", True, "PalIk", 0),
                            ("AckWaitsPersist", False, "PalKinds", 0)],
                 invs=["C16_EventsFaithful", "C16_AllPublished"]),
 }
@@ -121,14 +121,11 @@ def signature(inv, excerpt):
         detail = ":%s:%s" % (last.get("kind"), last.get("st"))
         reqs = excerpt[0]["req"]
         me = reqs.get(last.get("p"), {})
-        if me.get("ik"):
-            for l in excerpt:
-                for lg in (l.get("logs") or []) if l.get("ev") == "persist" else []:
-                    other = reqs.get(lg.get("by"), {})
-                    if lg.get("ik") == me["ik"] and lg.get("by") != last.get("p") and \
-                            any(other.get(k) != me.get(k) for k in ("kind", "target", "tacct", "mval", "postings")):
-                        if not detail.endswith(":ik-replay-other-args"):
-                            detail += ":ik-replay-other-args"
+        # the response of a request that shares its idempotency key with a request of another kind or with other arguments
+        if me.get("ik") and any(q != last.get("p") and r.get("ik") == me["ik"] and
+                                any(r.get(k) != me.get(k) for k in ("kind", "target", "tacct", "mval", "postings"))
+                                for q, r in reqs.items()):
+            detail += ":ik-replay-other-args"
     return "%s@%s%s" % (inv, ev, detail)
 
 
